@@ -1,5 +1,6 @@
 import GnarkVerif.Model.Util
 import GnarkVerif.Model.Sha256
+import GnarkVerif.Model.Poseidon2
 /-
 C16 — executable models of the two Merkle trees.
 
@@ -212,6 +213,47 @@ end Acc
 def readAll {D : Type} (hl : Bytes → D) (hn : D → D → D) (t : Tree Bytes D) (r : Bytes) (seg : Nat) : Tree Bytes D :=
   pushAll hl hn t (chunks seg r.length r)
 
+/-! ### `io.Reader`s that deliver the stream in pieces
+
+A reader is a list of pieces (a `Read` never crosses a seam: `io.MultiReader`, the Writes of an `io.Pipe`, the refills of a
+`bufio.Reader`) plus a policy `pol k req` = the most the `k`-th call delivers when asked for `req` bytes (`iotest.HalfReader`:
+`(req+1)/2`, `OneByteReader`: `1`, `0` = the empty read `(0, nil)`).  `Tree.ReadAll` fills every segment with `io.ReadFull`
+= `io.ReadAtLeast(r, buf, len(buf))`, which calls `Read` until the segment is full or the reader is at its end. -/
+structure Rd where
+  pieces : List Bytes
+  pol : Nat → Nat → Nat
+  calls : Nat := 0
+
+/-- the bytes still to come -/
+def Rd.flat (r : Rd) : Bytes := r.pieces.flatten
+
+/-- one `Read(p)`, `len(p) = req`: the bytes delivered and the reader afterwards; `none` = `(0, io.EOF)` -/
+def Rd.read (r : Rd) (req : Nat) : Option (Bytes × Rd) :=
+  match r.pieces.dropWhile (·.isEmpty) with
+  | [] => none
+  | c :: rest =>
+    let k := min (min req c.length) (r.pol r.calls req)
+    some (c.take k, { r with pieces := c.drop k :: rest, calls := r.calls + 1 })
+
+/-- `io.ReadFull` into a buffer with `need` free bytes: (bytes read, reader afterwards, reader at its end).  The fuel bounds the
+number of `Read` calls (a reader that returns `(0, nil)` for ever does not let the Go loop terminate; not modelled). -/
+def readFull : Nat → Rd → Nat → Bytes → Bytes × Rd × Bool
+  | 0, r, _, acc => (acc, r, false)
+  | f+1, r, need, acc =>
+    if need = 0 then (acc, r, false) else
+    match r.read need with
+    | none => (acc, r, true)
+    | some (b, r') => readFull f r' (need - b.length) (acc ++ b)
+
+/-- the leaves `Tree.ReadAll(r, seg)` pushes: `io.EOF` (nothing read) ends the loop, `io.ErrUnexpectedEOF` marks the short last
+segment -/
+def readAllR (seg inner : Nat) : Nat → Rd → List Bytes
+  | 0, _ => []
+  | f+1, r =>
+    match readFull inner r seg [] with
+    | (s, r', eof) =>
+      if s.isEmpty then [] else if eof then [s] else s :: readAllR seg inner f r'
+
 /-! ## B. the Vortex tree -/
 section Vortex
 variable {D : Type} (hn : D → D → D) (zero : D)
@@ -319,11 +361,81 @@ def tamper (kind : String) (a : Nat) (n : Nat) (rt : Option Sym) (lf : Option By
   | "dup" => some (rt, lf, match sibs.getLast? with | some x => sibs ++ [x] | none => sibs, i)
   | "appleaf" => some (rt, lf, match lf with | some l => sibs ++ [Sym.leaf l] | none => sibs, i)
   | "empty" => some (rt, none, [], i)
+  -- bytes an algebraic hasher refuses (no digest exists for them) / a leaf of another length / another root: all CHANGED values
+  | "leafnc" => some (rt, lf.map (fun _ => [0xde, 0xad, 1]), sibs, i)
+  | "sibnc" => some (rt, lf, if sibs.isEmpty then sibs else sibs.set (a % sibs.length) (Sym.atom 778), i)
+  | "leaflen" => some (rt, lf.map (· ++ [1, 1, 1]), sibs, i)
+  | "rootnc" => some (rt.map (fun _ => Sym.atom 779), lf, sibs, i)
   | "collapse" =>
     -- leaf := preimage of the a-th node on the path (not a leaf preimage in the idealised model), siblings a.. kept
     if i + 1 = n ∧ 0 < a ∧ a ≤ sibs.length then some (rt, lf.map (fun _ => [0xde, 0xad]), sibs.drop a, i)
     else some (rt, lf, sibs, i)
   | _ => none
+
+/-- cut `b` into consecutive pieces of the given sizes, the rest in a last piece -/
+def cutPieces : List Nat → Bytes → List Bytes
+  | [], b => [b]
+  | k :: ks, b => b.take k :: cutPieces ks (b.drop k)
+
+def blocksOf (k : Nat) : Nat → Bytes → List Bytes
+  | 0, _ => []
+  | f+1, b => if b.isEmpty then [] else b.take k :: blocksOf k f (b.drop k)
+
+/-- the reader of a spec of the line protocol over the stream `b` (`none` = unknown spec) -/
+def readerOf (spec : String) (seg : Nat) (b : Bytes) : Option Rd :=
+  let all : Nat → Nat → Nat := fun _ req => req
+  match spec.splitOn "=" with
+  | ["full"] => some { pieces := [b], pol := all }
+  | ["dataerr"] => some { pieces := [b], pol := all }
+  | ["half"] => some { pieces := [b], pol := fun _ req => (req + 1) / 2 }
+  | ["one"] => some { pieces := [b], pol := fun _ _ => 1 }
+  | ["bufio"] => some { pieces := if seg < 16 then blocksOf 16 b.length b else [b], pol := all }
+  | [kind, arg] =>
+    let sizes := (arg.splitOn ",").map parseHexD
+    if sizes.all (· == 0) ∨ sizes.length > 64 then none else
+    match kind with
+    | "multi" => some { pieces := cutPieces sizes b, pol := all }
+    | "pipe" => some { pieces := cutPieces sizes b, pol := all }
+    | "chunk" => some { pieces := [b], pol := fun k _ => sizes.getD (k % sizes.length) 0 }
+    | "chunkeof" => some { pieces := [b], pol := fun k _ => sizes.getD (k % sizes.length) 0 }
+    | _ => none
+  | _ => none
+
+/-- the leaves `ReadAll` pushes when it reads the stream `b` through the reader of the spec -/
+def readLeaves (spec : String) (seg : Nat) (b : Bytes) : Option (List Bytes) :=
+  (readerOf spec seg b).map (readAllR seg ((b.length + 2) * 66) (b.length + 1))
+
+/-- the algebraic hashers of the hash registry: `Write` accepts a sequence of canonical field elements -/
+structure AlgHash where
+  mimc : Bool
+  q : Nat
+  eb : Nat   -- bytes per field element
+  bs : Nat   -- block size of the hasher
+
+/-- `mimc_<curve>` (MiMC over fr, one element per block), `p2_<pkg>` (Merkle–Damgård over the Poseidon2 compression with the
+    default width `t`: `t/2` elements per block) -/
+def algHash (name : String) : Option AlgHash :=
+  if name.startsWith "mimc_" then do
+    let (_, fname, _, _) ← MiMC.instances.find? (·.1 == (name.drop 5).toString)
+    let fc ← Gen.allFields.find? (·.name == fname)
+    some { mimc := true, q := fc.q, eb := fc.bytes, bs := fc.bytes }
+  else if name.startsWith "p2_" then do
+    let pk ← Poseidon2.pkgs.find? (·.name == (name.drop 3).toString)
+    let fc ← Gen.allFields.find? (·.name == pk.field)
+    some { mimc := false, q := fc.q, eb := fc.bytes, bs := (pk.dflt.1 / 2) * fc.bytes }
+  else none
+
+/-- what ONE `Write(p)` of the hasher accepts.  MiMC: after the left-padding of a short write, whole blocks, each a canonical
+    element.  Merkle–Damgård: blocks of `bs` bytes, the short tail left-padded, each a sequence of canonical elements. -/
+def AlgHash.absorbs (H : AlgHash) (p : Bytes) : Bool :=
+  if H.mimc then
+    let P : MiMC.Params := { q := H.q, d := 0, size := H.bs, consts := [] }
+    (MiMC.decodeBlocks P (MiMC.pad P p)).isSome
+  else (Poseidon2.chunks H.bs p).all (fun c => (Poseidon2.decodeElems H.q H.eb c).isSome)
+
+/-- which leaves a tree over the hash can hold (`sum` panics when the hasher refuses: the tree is not built) -/
+def leafOk (name : String) : Option (Bytes → Bool) :=
+  if name == "sha256" then some (fun _ => true) else (algHash name).map (·.absorbs)
 
 def showObs : Option (Obs Bytes Bytes) → String
   | some (.root r) => optHex r
@@ -331,7 +443,7 @@ def showObs : Option (Obs Bytes Bytes) → String
     s!"{optHex rt} {toHex nl} {proofHex lf sibs} {boolStr (verifyProof shaL shaN rt lf sibs pi nl)}"
   | _ => "bad-op"
 
-def runDecomp (i : Option Nat) (ops : List String) : String := Id.run do
+def runDecomp (i : Option Nat) (ops : List String) (alias : Bool := false) : String := Id.run do
   let mut t : Tree Bytes Bytes := match i with
     | some k => { pidx := k, proofTree := true }
     | none => {}
@@ -356,6 +468,13 @@ def runDecomp (i : Option Nat) (ops : List String) : String := Id.run do
       let sg := parseHexD seg
       if sg = 0 then outs := outs ++ ["bad-op"] else
       t := readAll shaL shaN t b sg; flat := flat ++ chunks sg b.length b; outs := outs ++ ["ok"]
+    | ["R", seg, bs, spec] =>
+      let b := parseBytes bs
+      let sg := parseHexD seg
+      if sg = 0 then outs := outs ++ ["bad-op"] else
+      match readLeaves spec sg b with
+      | none => outs := outs ++ ["bad-op"]
+      | some ls => t := pushAll shaL shaN t ls; flat := flat ++ chunks sg b.length b; outs := outs ++ ["ok"]
     | ["Or"] =>
       let r := hstep shaL shaN t .root
       t := r.1; outs := outs ++ [showObs r.2]
@@ -363,6 +482,10 @@ def runDecomp (i : Option Nat) (ops : List String) : String := Id.run do
       if !t.proofTree then outs := outs ++ ["bad-op"] else
       let r := hstep shaL shaN t .prove
       t := r.1; outs := outs ++ [showObs r.2]
+    -- `acca` (the caller reuses its memory): the model's values are immutable: what was returned keeps its value (`Ov`), and
+    -- overwriting it (`Om`) is not an operation on the tree
+    | ["Ov"] => outs := outs ++ [if alias then "same" else "bad-op"]
+    | ["Om"] => outs := outs ++ [if alias then "ok" else "bad-op"]
     | ["I", k] =>
       match setIndex t (parseHexD k) with
       | some t' => t := t'; outs := outs ++ ["ok"]
@@ -445,13 +568,16 @@ def handle : List String → String
   | ["accroot", "sha256", n, seed] =>
     let t := pushAll shaL shaN ({} : Tree Bytes Bytes) (leavesOf (parseHexD seed) (parseHexD n))
     optHex (root shaN t) ++ " " ++ optHex (if parseHexD n = 0 then none else some (MTH shaL shaN (leavesOf (parseHexD seed) (parseHexD n))))
-  | ["acct", _hash, n, i, seed, kind, a] =>
+  | ["acct", hash, n, i, seed, kind, a] =>
+    if (leafOk hash).isNone then "bad-op" else
     let n := parseHexD n
     let (rt, lf, sibs, pi, nl) := prove Sym.node (symTree n (parseHexD i) (parseHexD seed))
     match tamper kind (parseHexD a) n rt lf sibs pi with
     | none => "bad-op"
     | some (rt', lf', sibs', pi') => boolStr (verifyProof Sym.leaf Sym.node rt' lf' sibs' pi' nl)
   | "accd" :: "sha256" :: i :: ops => runDecomp (if i == "x" then none else some (parseHexD i)) ops
+  | "acca" :: "sha256" :: i :: ops => runDecomp (if i == "x" then none else some (parseHexD i)) ops true
+  | ["vxa", n, i, pat, _seed] => vxHandle (parseHexD n) (parseInt i) pat "none" 0
   | ["accr", "sha256", i, seg, bs] =>
     -- `ReaderRoot` = New, ReadAll, Root;  `BuildReaderProof` = New, SetIndex, ReadAll, Prove (+ error on an empty proof set)
     let sg := parseHexD seg
@@ -460,6 +586,38 @@ def handle : List String → String
     let t := readAll shaL shaN ({ pidx := parseHexD i, proofTree := true } : Tree Bytes Bytes) (parseBytes bs) sg
     let (rt, lf, _, _, nl) := prove shaN t
     if lf.isNone then s!"err:notreached {optHex rt} {toHex nl}" else showProve shaL shaN id t
+  | ["accr", "sha256", i, seg, bs, spec] =>
+    -- the same through a reader that delivers the stream in pieces: the leaves are what the model of `io.ReadFull` collects
+    let sg := parseHexD seg
+    if sg = 0 then "bad-op" else
+    match readLeaves spec sg (parseBytes bs) with
+    | none => "bad-op"
+    | some ls =>
+    if i == "x" then optHex (root shaN (pushAll shaL shaN ({} : Tree Bytes Bytes) ls)) else
+    let t := pushAll shaL shaN ({ pidx := parseHexD i, proofTree := true } : Tree Bytes Bytes) ls
+    let (rt, lf, _, _, nl) := prove shaN t
+    if lf.isNone then s!"err:notreached {optHex rt} {toHex nl}" else showProve shaL shaN id t
+  | ["accb", hash, n, j, _seed, leaf] =>
+    -- a tree whose j-th leaf is `leaf` (the others are absorbable): it exists iff the hasher absorbs the leaf, and then the
+    -- proof of j verifies (`C16_prove_verifies`)
+    let n := parseHexD n
+    let j := parseHexD j
+    match leafOk hash with
+    | none => "bad-op"
+    | some ok =>
+      if n = 0 ∨ j ≥ n ∨ n > 64 then "bad-op" else
+      if !ok (parseBytes leaf) then "refused" else
+      let L := (leavesOf 1 n).set j (0xee :: parseBytes leaf)
+      let (rt, lf, sibs, pi, nl) := prove Sym.node (pushAll Sym.leaf Sym.node ({ pidx := j, proofTree := true } : Tree Bytes Sym) L)
+      "ok " ++ boolStr (verifyProof Sym.leaf Sym.node rt lf sibs pi nl)
+  | ["accrb", hash, seg, bs] =>
+    let sg := parseHexD seg
+    match leafOk hash with
+    | none => "bad-op"
+    | some ok =>
+      if sg = 0 then "bad-op" else
+      let b := parseBytes bs
+      if (chunks sg b.length b).all ok then "ok" else "refused"
   | ["accti", "sha256", n, i, seed, pairs] => accIdxHandle (parseHexD n) (parseHexD i) (parseHexD seed) (pairs.splitOn ",")
   | ["vxi", n, p, pat, _seed, js] => vxIdxHandle (parseHexD n) (parseInt p) pat ((js.splitOn ",").map parseInt)
   | ["vx", n, i, pat, _seed, kind, a] => vxHandle (parseHexD n) (parseInt i) pat kind (parseInt a)
